@@ -29,7 +29,8 @@ def lit(rng, allow_qq=True):
         elif k < 0.3:
             out += "-"
         elif k < 0.36:
-            out += rng.choice(["--", " -- ", '"', '" -- ', "#", " # "])
+            out += rng.choice(["--", " -- ", '"', '" -- ', "#", " # ", "; drop table tmp", "; CREATE TABLE y", ";alter table q add c int",
+                               "; Drop index i", " create table z"])        # whole statements inside a literal are plain text
         else:
             out += rng.choice(SAFE)
     out = out.strip().replace("/*", "/ *").replace("*/", "* /")
